@@ -750,7 +750,12 @@ func (eng *Engine) discharge(fv *FV) {
 				o.Status, o.Solver, o.Secs, o.Output = r.Status, r.Solver, r.Secs, r.Output
 				return
 			}
-			best, _ := solve(dir, fmt.Sprintf("q%03d", i), text, eng.timeout)
+			var best SolverResult
+			if eng.knownObl[o.Name] {
+				best = runOne(context.Background(), solvers[0], dir, fmt.Sprintf("q%03d", i), stripBackwardAllocTriggers(text), 3)
+			} else {
+				best, _ = solve(dir, fmt.Sprintf("q%03d", i), text, eng.timeout)
+			}
 			o.Status, o.Solver, o.Secs, o.Output = best.Status, best.Solver, best.Secs, best.Output
 			if eng.crossCheck && o.Status == "unsat" {
 				// independent confirmation by a different solver
